@@ -15,6 +15,7 @@ from vf.common import Plan, crandn, held, violated, inconclusive, rng_for, nrm, 
 from vf.oracles import interp as O
 
 SPEC = {
+    "deciding_monitors": ["fn:interpolate", "fn:gridding", "in:layout:F", "in:layout:strided", "in:complex64"],
     "rule": ("cases = (grid shape 1-3 dims incl. length-1 axes, batch shape, point set class "
              "[inside/outside/ceil-floor ties/integer/duplicates], kernel x param scalar or "
              "per-axis, width scalar or per-axis incl. fractional, real/complex data, "
